@@ -305,10 +305,29 @@ async fn run_history(c: &Case, mut sut: Sut) -> Outcome {
 }
 
 fn strategy(with_restart: bool, max: usize) -> BoxedStrategy<Case> {
-    (any::<bool>(), vec(event(with_restart), 5..max)).prop_map(|(v6, events)| Case { v6, events }).boxed()
+    let free = (any::<bool>(), vec(event(with_restart), 5..max)).prop_map(|(v6, events)| Case { v6, events });
+    // structured prefix around one lazy rotation: a token issued `a` ms before the 10-minute mark
+    // of the current secret, another event `b` ms after the mark (which rotates the secrets), and
+    // the announce when the token is 10 min - c old; repeated with fresh parameters
+    let round = (1u64..3000, 1u64..3000, 0u64..600, 0u8..3, 1u8..4).prop_map(|(a, e, c, ip, other)| {
+        vec![
+            Ev::Gap { ms: 600_000 - a },
+            Ev::GetPeers { ip, port: 1 },
+            Ev::Gap { ms: e },
+            Ev::GetPeers { ip: ip + other, port: 2 },
+            Ev::Gap { ms: 600_000 - e - c },
+            Ev::Announce { ip, port: 3, token: TokRef::Mine(0), hash: 1, explicit: None },
+        ]
+    });
+    let structured = (any::<bool>(), vec(round, 1..4), vec(event(with_restart), 0..20)).prop_map(|(v6, rounds, tail)| {
+        let mut events: Vec<Ev> = rounds.into_iter().flatten().collect();
+        events.extend(tail);
+        Case { v6, events }
+    });
+    prop_oneof![4 => free, 1 => structured].boxed()
 }
 
-const RULE: &str = "histories of 5..80 events over up to hours: get_peers(ip, port) collecting tokens, announce(ip, port', token reference, hash, port mode) with token = k-th most recent of this IP / of another IP / of a previous instance / random 20 B / length 0..40, idle gaps from a mixture hugging the rotation arithmetic (0..2 s, 599..601 s, 1199..1201 s, 1799..1801 s, exact 600/1200 s, uniform to 2 h; 1 ms resolution), 6 IPs of one family per case, restarts of the node. Oracle: interval model (must accept <=10 min after issue to that IP; must refuse 203 if never issued to that IP by this instance, wrong length, or all issues >=30 min old; otherwise either) plus store checks by a follow-up get_peers. Non-trivial: a must-accept and a must-reject decision on the same token value, or a cross-IP attempt";
+const RULE: &str = "histories of 5..80 events over up to hours: get_peers(ip, port) collecting tokens, announce(ip, port', token reference, hash, port mode) with token = k-th most recent of this IP / of another IP / of a previous instance / random 20 B / length 0..40, idle gaps from a mixture hugging the rotation arithmetic (0..2 s, 599..601 s, 1199..1201 s, 1799..1801 s, exact 600/1200 s, uniform to 2 h; 1 ms resolution), 6 IPs of one family per case, restarts of the node; 20 % of the histories start with 1..3 structured rounds (token issued up to 3 s before the 10-minute mark of the current secret, another request up to 3 s later, announce when the token is 10 min - 0..0.6 s old). Oracle: interval model (must accept <=10 min after issue to that IP; must refuse 203 if never issued to that IP by this instance, wrong length, or all issues >=30 min old; otherwise either) plus store checks by a follow-up get_peers. Non-trivial: a must-accept and a must-reject decision on the same token value, or a cross-IP attempt";
 
 pub struct Component;
 
